@@ -543,6 +543,25 @@ DerivedBytes(f, hh) == CASE f \in {"ISOTXS", "GAMISO"} -> IsoDerivedBytes(hh) []
                          [] f = "FIXSRC" -> FixConstBytes [] OTHER -> 0
 Encs(f) == IF f = "FIXSRC" THEN <<"bin">> ELSE <<"bin", "asc">>      \* fixsrc.py offers readBinary / writeBinary only
 
+(* ---------- input class of a header: which optional mechanisms of the format it exercises (sizes left out) ----------
+   Printed with every case; violation keys carry it, so that a listed finding covers exactly the header class it
+   was found in and the same call site failing for another class is a different key.                         *)
+KV(kk, v) == kk \o "=" \o ToString(v)
+ClassOf(f, hh) ==
+    CASE f = "GEODST" -> KV("dim", GeoDim(hh.IGOM)) \o "," \o KV("nrass", hh.NRASS) \o "," \o KV("nbs", B2I(hh.NBS > 0))
+      [] f = "DIF3D"  -> KV("numorp", B2I(hh.NUMORP > 0)) \o "," \o KV("ncmrzs", B2I(hh.NCMRZS > 0))
+      [] f = "NHFLUX" -> KV("variant", B2I(hh.variant)) \o "," \o KV("adjoint", B2I(hh.adjoint)) \o "," \o KV("iwnhfl", hh.iwnhfl)
+                         \o "," \o KV("nmoms", hh.nMoms)
+      [] f = "LABELS" -> KV("nhts", B2I(hh.nh1 + hh.nh2 > 0)) \o "," \o KV("nsets", hh.nsets) \o "," \o KV("nalias", B2I(hh.nalias > 0))
+      [] f = "PWDINT" -> KV("blocked", B2I(hh.NBLOK > 1))
+      [] f = "RTFLUX" -> KV("adjoint", B2I(hh.adjoint)) \o "," \o KV("ndim", hh.NDIM) \o "," \o KV("blocked", B2I(hh.NBLOK > 1))
+      [] f = "RZFLUX" -> KV("blocked", B2I(hh.NBLOK > 1))
+      [] f = "FIXSRC" -> "any"
+      [] f \in {"ISOTXS", "GAMISO"} -> KV("nsblok", hh.nsblok)
+      [] f = "PMATRX" -> KV("nact", hh.nact) \o "," \o KV("order", hh.mso)
+      [] f = "DLAYXS" -> "any"
+      [] f = "COMPXS" -> KV("fwchi", hh.fw) \o "," \o KV("ndelay", B2I(hh.ndel > 0)) \o "," \o KV("chi", hh.chi)
+
 (* ================================================ the file as a behaviour =============================== *)
 Recs == Records(fmt, h)
 Init == /\ fmt \in Fmts /\ h \in HdrDom(fmt) /\ pos = 0 /\ off = 0 /\ act = [n |-> "Init"]
@@ -580,7 +599,7 @@ NoDuplicatePaths == pos = 0 => LET m == Manifest(fmt, h) IN Cardinality({m[i].p 
 
 (* ---------- the case printed for the harness ---------- *)
 RecObs(r) == [tag |-> r.tag, bytes |-> RecBytes(r.fs), chars |-> RecChars(r.fs), calls |-> RecCalls(r.fs)]
-Case == [fmt |-> fmt, h |-> h, encs |-> Encs(fmt), recs |-> [i \in 1..Len(Recs) |-> RecObs(Recs[i])],
+Case == [fmt |-> fmt, h |-> h, cls |-> ClassOf(fmt, h), encs |-> Encs(fmt), recs |-> [i \in 1..Len(Recs) |-> RecObs(Recs[i])],
          manifest |-> Manifest(fmt, h), counts |-> Count(fmt, h), binlen |-> FileBytes(fmt, h), asclen |-> FileChars(fmt, h),
          loca |-> IF fmt \in {"ISOTXS", "GAMISO"} THEN IsoLoca(h) ELSE <<>>]
 =====================================================================================================
